@@ -26,6 +26,7 @@ def cfg : Cfg :=
     sigCont := (Gen.C02.signalMap.lookup "resume").getD 0
     sigTerm := (Gen.C02.signalMap.lookup "terminate").getD 0
     sigKill := (Gen.C02.signalMap.lookup "kill").getD 0
-    ioNoValue := Gen.C02.ioNoValue }
+    ioNoValue := Gen.C02.ioNoValue
+    affinityAll := Gen.C02.affinityResetMask }
 
 end Psutil.C02
